@@ -4,6 +4,7 @@ import Uft.Model.Report
    func <maxStack> <avgMode 0|1|2> <-s string|-> | <id:size …> | <task 0 records> | <task 1 records> …
         -> "rows <key,call,size,tsum,tavg,tmin,tmax,ssum,savg,smin,smax>;…"   (sorted, as printed)
            or "invalid-sort-key"
+   funcpre …  -> the same before the repair of F-C08-DUP (a sort key given twice): "hang" or rows
    task <maxStack> <-s string|-> | | <task 0 records> | …
         -> same row format, key = task index
    diff <maxStack base>:<maxStack pair> <avgMode> <-s string|-> <column> <abs 0|1> | <id:size …> | base streams … | # | pair streams …
@@ -68,9 +69,22 @@ def handle (ws : List String) : String :=
   | ["func", ms, avg, sk] :: sizes :: secs =>
     match ms.toNat?, avg.toNat?, parseStreams secs with
     | some ms, some avg, some streams =>
-      match setupSort (convertSortKeys (optKeys sk) avg) with
+      match setupSortG true (convertSortKeys (optKeys sk) avg) with
       | none => "invalid-sort-key"
-      | some keys => "rows " ++ ";".intercalate ((sortByKeys keys (funcRows ms (parseSizes sizes) streams)).map showRow)
+      | some chain =>
+        match sortByChainG chain (funcRows ms (parseSizes sizes) streams) with
+        | none => "hang"
+        | some rows => "rows " ++ ";".intercalate (rows.map showRow)
+    | _, _, _ => "bad-op"
+  | ["funcpre", ms, avg, sk] :: sizes :: secs =>
+    match ms.toNat?, avg.toNat?, parseStreams secs with
+    | some ms, some avg, some streams =>
+      match setupSortG false (convertSortKeys (optKeys sk) avg) with
+      | none => "invalid-sort-key"
+      | some chain =>
+        match sortByChainG chain (funcRows ms (parseSizes sizes) streams) with
+        | none => "hang"
+        | some rows => "rows " ++ ";".intercalate (rows.map showRow)
     | _, _, _ => "bad-op"
   | ["task", ms, sk] :: _ :: secs =>
     match ms.toNat?, parseStreams secs with
